@@ -13,6 +13,7 @@ for d in $(ls -d "$root"/C*/m* | sort); do
   suite=$(echo "$res" | grep -c 'suite-with-patch: pass')
   demo=$(echo "$res" | grep -c 'patched-demo: fail')
   caught=$(echo "$res" | grep -c '=> CAUGHT')
+  rc=$(echo "$res" | sed -n 's/.*check([a-z]*) exit=\([0-9]*\).*/\1/p' | head -1)
   sig=$(echo "$res" | grep -m1 'signature=' | sed 's/^ *//' | cut -c1-160)
-  echo "$prop $(basename $d) clean=$clean suite=$suite demo_fails=$demo caught_$tier=$caught | $sig" | tee -a "$out"
+  echo "$prop $(basename $d) clean=$clean suite=$suite demo_fails=$demo caught_$tier=$caught exit=$rc | $sig" | tee -a "$out"
 done
